@@ -173,14 +173,20 @@ Section MemoGeneric.
      EBuild of the same id = more rules added to the same WAF); WAF [id] is closed *)
   Inductive event := EBuild (id : N) (rs : list req) | EClose (id : N).
 
-  Definition step (c : cache) (ev : event) : cache :=
+  (* process state: the cache and the WAFs whose Close already ran (closeOnce: a second Close
+     of the same WAF does nothing) *)
+  Record pstate := mk_ps { ps_cache : cache; ps_closed : list N }.
+
+  Definition step (s : pstate) (ev : event) : pstate :=
     match ev with
-    | EBuild id rs => fst (construct c id rs)
-    | EClose id => release c id
+    | EBuild id rs => mk_ps (fst (construct (ps_cache s) id rs)) (ps_closed s)
+    | EClose id =>
+        if memo_mem id (ps_closed s) then s
+        else mk_ps (release (ps_cache s) id) (id :: ps_closed s)
     end.
 
-  Definition run_from (c : cache) (h : list event) : cache := fold_left step h c.
-  Definition run (h : list event) : cache := run_from [] h.
+  Definition run_from (s : pstate) (h : list event) : pstate := fold_left step h s.
+  Definition run (h : list event) : pstate := run_from (mk_ps [] []) h.
 
   Definition ev_id (ev : event) : N := match ev with EBuild id _ => id | EClose id => id end.
 
@@ -203,6 +209,9 @@ Arguments Failed {art err} _ _.
 Arguments Panicked {art err} _.
 Arguments EBuild {req} _ _.
 Arguments EClose {req} _.
+Arguments mk_ps {art} _ _.
+Arguments ps_cache {art} _.
+Arguments ps_closed {art} _.
 
 (* ------------------------------------------------------------------------------------------ *)
 (* Part 2: the call sites of the code                                                         *)
@@ -362,7 +371,7 @@ Definition payload_name_nul (hash : bytes -> bytes) (r : creq) : bytes :=    (* 
 (* Part 3: call-site facts (what the translator extracts) and the checks over them            *)
 (* ------------------------------------------------------------------------------------------ *)
 
-Open Scope string_scope.
+Local Open Scope string_scope.
 
 Record site_fact := mk_site {
   sf_file : string;           (* path below /repo *)
